@@ -30,6 +30,7 @@ type world struct {
 	// that only State.Play (PlayAndRepost with isRootTx) applies. Real signatures are
 	// outside these harnesses.
 	walkable []bool
+	restA    *big.Int // amount of t1's change output
 }
 
 func (w *world) add(parent int, nonce int32, txs []*pb.Transaction) int {
@@ -51,9 +52,11 @@ func (w *world) add(parent int, nonce int32, txs []*pb.Transaction) int {
 
 // build: genesis (A=9, B=5) and a small forked tree whose transfer amounts,
 // frozen heights and key values are solver variables:
-//   g <- b1 <- b2      b1: A pays x to B (change to A), writes k1=v1, creates k2
-//   g <- c1            b2: B pays part of x to C with a fee output, deletes k2, overwrites k1
-//                      c1: A pays y to C frozen until height fz
+//
+//	g <- b1 <- b2      b1: A pays x to B (change to A), writes k1=v1, creates k2
+//	g <- c1            b2: B pays part of x to C with a fee output, deletes k2, overwrites k1
+//	                   c1: A pays y to C frozen until height fz
+//
 // data: 0 = all amounts/values fixed, 1 = main amounts symbolic, 2 = everything symbolic
 func build(window string, data int) *world {
 	rich := data >= 2
@@ -72,8 +75,8 @@ func build(window string, data int) *world {
 	e := vkit.NewEnv("hst", vkit.Genesis(window, "9", "5"), nil)
 	w := &world{e: e, blocks: []*pb.InternalBlock{e.Root}, parent: []int{-1}, height: []int64{0}, award: big.NewInt(7), walkable: []bool{true}}
 	root := e.RootTx.Txid
-	hundred := big.NewInt(9) // A's genesis output (single-digit amounts keep the JSON records of outputs in one length class)
-	x := big.NewInt(main("x", 1, 9, 4)) // a zero output creates no unspent output that t2 could cite
+	hundred := big.NewInt(9)            // A's genesis output (single-digit amounts keep the JSON records of outputs in one length class)
+	x := big.NewInt(main("x", 1, 8, 4)) // a zero output creates no unspent output that t2 / t5 could cite
 	restA := new(big.Int).Sub(hundred, x)
 	v1 := vrt.Bytes("v1", 1)
 	vrt.Assume(v1[0] != 0)
@@ -91,7 +94,10 @@ func build(window string, data int) *world {
 	t2 := vkit.Tx("t2", []*protos.TxInput{vkit.In([]byte("t1"), 0, "B", x)}, []*protos.TxOutput{vkit.Out("C", z, 0), vkit.Out("$", fee, 0), vkit.Out("B", restB, 0)})
 	vkit.WithKey(t2, "bk", "k1", []byte("t1"), 0, v2)
 	vkit.WithKey(t2, "bk", "k2", []byte("t1"), 1, []byte{0})
-	w.add(b1, 2, []*pb.Transaction{vkit.Coinbase("cb2", "M", w.award.Bytes()), t2})
+	// t5: two inputs of different amounts (the award of b1 and A's change), regrouped
+	t5 := vkit.Tx("t5", []*protos.TxInput{vkit.In([]byte("cb1"), 0, "M", w.award), vkit.In([]byte("t1"), 1, "A", restA)}, []*protos.TxOutput{vkit.Out("A", w.award, 0), vkit.Out("M", restA, 0)})
+	w.restA = restA
+	w.add(b1, 2, []*pb.Transaction{vkit.Coinbase("cb2", "M", w.award.Bytes()), t2, t5})
 
 	y := big.NewInt(main("y", 0, 9, 3))
 	fz := pick("frozen", -1, 3, 0)
@@ -163,11 +169,18 @@ func conservation(w *world, s *state.State, at int, when string) {
 
 // walks: a sequence of K operations (play next / walk anywhere / restart); after
 // each, the live state must equal a fresh replica walked to the same block.
-func walks(K int, window string, data int) {
+func walks(K int, window string, data int) { walksFrom(K, window, data, false) }
+
+// walksFrom: as walks; with anyStart the node begins at any block of the tree (reached by plain
+// plays), so K operations cover histories K plays longer.
+func walksFrom(K int, window string, data int, anyStart bool) {
 	w := build(window, data)
-	s := w.fresh("live", 0)
 	at := 0
-	maxApplied := int64(0)
+	if anyStart {
+		at = vrt.Choice("start", len(w.blocks))
+	}
+	s := w.fresh("live", at)
+	maxApplied := w.height[at]
 	wnd := int64(0)
 	if window != "0" {
 		wnd = int64(window[0] - '0')
@@ -242,11 +255,39 @@ func walks(K int, window string, data int) {
 		vrt.Assert(live.Irrev >= irrBefore, "irreversible-height-never-decreases")
 		vrt.Assert(live.Window == wnd, "window-survives")
 	}
+	if !anyStart {
+		return
+	}
+	// behaviour, not only answers: the node that got here by plays, walks and restarts admits or
+	// refuses a pool submission exactly like a fresh node at the same block, and ends up equal
+	// the amount the probe cites for the output it spends (and passes on) is arbitrary: only the real one may be admitted
+	var ptx *pb.Transaction
+	cited := big.NewInt(vrt.Int("probe-amount", 1, 9))
+	var real *big.Int
+	switch vrt.Choice("probe", 3) {
+	case 0:
+		ptx, real = vkit.Tx("probe", []*protos.TxInput{vkit.In([]byte("cb1"), 0, "M", cited)}, []*protos.TxOutput{vkit.Out("C", cited, 0)}), w.award
+	case 1:
+		ptx, real = vkit.Tx("probe", []*protos.TxInput{vkit.In([]byte("t1"), 1, "A", cited)}, []*protos.TxOutput{vkit.Out("C", cited, 0)}), w.restA
+	case 2:
+		ptx, real = vkit.Tx("probe", []*protos.TxInput{vkit.In(w.e.RootTx.Txid, 1, "B", cited)}, []*protos.TxOutput{vkit.Out("C", cited, 0)}), big.NewInt(5)
+	}
+	rep := w.fresh("probe-replica", at)
+	e1, e2 := s.DoTx(ptx), rep.DoTx(ptx)
+	vrt.Cover("probe-admitted", e2 == nil)
+	vrt.Cover("probe-refused", e2 != nil)
+	vrt.Assert((e1 == nil) == (e2 == nil), "walked-node-admits-what-a-fresh-node-admits")
+	vrt.Assert(e1 != nil || cited.Cmp(real) == 0, "admitted-only-if-the-cited-amount-is-the-real-amount")
+	conservation(w, s, at, "after-probe")
+	lo, ro := vkit.Observe(s), vkit.Observe(rep)
+	ro.Irrev = lo.Irrev
+	vkit.Same(lo, ro, func(c bool, label string) { vrt.Assert(c, "after-submission-"+label) })
 }
 
 func VerifC01Quick()    { walks(2, "0", 1) }
 func VerifC01Thorough() { walks(2, "0", 2) }
 func VerifC01Deep()     { walks(3, "0", 0) }
+func VerifC01AnyStart() { walksFrom(2, "0", 0, true) }
 func VerifC17Walks()    { walks(3, "1", 0) }
 func VerifC17Walks2()   { walks(3, "2", 0) }
 
@@ -320,10 +361,12 @@ type c03tx struct {
 }
 
 // verifC03: K operations over a family of conflicting / dependent transactions:
-//   p1: root/0 -> C x, A 9-x; writes k1 (never-written)     p2: root/0 -> B 9; reads k1 (never-written)
-//   p3: root/1 -> C 5; writes k1 (never-written)             p4: p1/0 -> A x            (depends on p1)
-//   q1, q2: each reads k1 at p3's version and overwrites it  (depend on p3, conflict with each other)
-//   p5: root/1 + p1/0 -> A 5+x   (confirmed input listed before the pending one)
+//
+//	p1: root/0 -> C x, A 9-x; writes k1 (never-written)     p2: root/0 -> B 9; reads k1 (never-written)
+//	p3: root/1 -> C 5; writes k1 (never-written)             p4: p1/0 -> A x            (depends on p1)
+//	q1, q2: each reads k1 at p3's version and overwrites it  (depend on p3, conflict with each other)
+//	p5: root/1 + p1/0 -> A 5+x   (confirmed input listed before the pending one)
+//
 // Operations: DoTx(any member), or a peer block (coinbase + one of p1,p2,p3) confirmed and played.
 // Oracle: unspent outputs and key versions maintained from the successful operations only.
 func verifC03(K int) {
@@ -875,13 +918,21 @@ func c06scenario(sc *scene, k int) {
 			sc.s.Walk(c2.Blockid, false)
 			vrt.Quiesce()
 		}
+	case 4: // truncation as the miner does it: the state walks back to the target, then the ledger drops what lies above
+		sc.blockIDs = append(sc.blockIDs, b2.Blockid)
+		if sc.e.L.ConfirmBlock(b2, false).Succ && sc.s.Play(b2.Blockid) == nil {
+			if sc.s.Walk(sc.b1.Blockid, false) == nil {
+				vrt.Quiesce()
+				sc.e.L.Truncate(sc.b1.Blockid)
+			}
+		}
 	}
 }
 
 // verifC06: crash (panic before the c-th storage write, c over every write the
 // scenario issues, across both databases) and restart.
 func verifC06() {
-	k := vrt.Choice("scenario", 4)
+	k := vrt.Choice("scenario", 5)
 	// reference run: counts the writes of the scenario
 	fr := newFaults()
 	ref := newScene("c06ref", fr)
@@ -1000,7 +1051,9 @@ func verifC06() {
 	ro := vkit.Observe(rep2)
 	// pending transactions the tip did not confirm stay pending on the synchronised node only
 	if pl, _ := s.GetUnconfirmedTx(false); len(pl) == 0 {
-		vkit.Same(so, ro, func(c bool, label string) { vrt.Assert(c, "synchronised-state-equals-node-that-played-the-main-chain-"+label) })
+		vkit.Same(so, ro, func(c bool, label string) {
+			vrt.Assert(c, "synchronised-state-equals-node-that-played-the-main-chain-"+label)
+		})
 	}
 }
 
